@@ -292,9 +292,57 @@ def _r3(run, beam, att):
                 kw = {k.arg: norm(k.value) for k in n.keywords}
                 xs = norm(n.args[1]) if len(n.args) > 1 else kw.get('x')
                 return L('CUMTRAPZ(%s; x=%s; dx=%s; initial=%s)' % (norm(n.args[0]), xs, kw.get('dx'), kw.get('initial')))
+            if d in ('np.diff', 'numpy.diff') and len(n.args) == 1 and not n.keywords:
+                return L('%s#hi' % norm(n.args[0])) - L('%s#lo' % norm(n.args[0]))
             return super().call(n)
+
+        def subscript(self, n):
+            # the two shifted views of an array that a hand-written trapezium rule adds: a[1:] and a[:-1]
+            if isinstance(n.slice, ast.Slice) and n.slice.step is None:
+                lo, hi = n.slice.lower, n.slice.upper
+                if lo is not None and hi is None and norm(lo) == '1':
+                    return L('%s#hi' % norm(n.value))
+                if lo is None and hi is not None and norm(hi) == '-1':
+                    return L('%s#lo' % norm(n.value))
+            return super().subscript(n)
     e = AttEval()
-    run_block(e, [s_ for s_ in fn.body if not isinstance(s_, ast.For)])
+    body_ = [s_ for s_ in fn.body if not isinstance(s_, ast.For)]
+    # a cumulative trapezium rule written out with numpy: T = zeros(n); T[1:] = cumsum(0.5 * W * (S[1:] + S[:-1]))
+    for st_ in list(body_):
+        if isinstance(st_, ast.Assign) and len(st_.targets) == 1 and isinstance(st_.targets[0], ast.Subscript) \
+                and isinstance(st_.targets[0].value, ast.Name) and isinstance(st_.value, ast.Call) \
+                and (dotted(st_.value.func) or '').split('.')[-1] == 'cumsum' and len(st_.value.args) == 1 \
+                and isinstance(st_.targets[0].slice, ast.Slice) and norm(st_.targets[0].slice.lower or ast.Constant(0)) == '1' \
+                and st_.targets[0].slice.upper is None:
+            tname = st_.targets[0].value.id
+            init_ = [q for q in body_ if isinstance(q, ast.Assign) and len(q.targets) == 1 and isinstance(q.targets[0], ast.Name)
+                     and q.targets[0].id == tname and isinstance(q.value, ast.Call) and (dotted(q.value.func) or '').split('.')[-1] in ('zeros', 'zeros_like')]
+            e2 = AttEval()
+            try:
+                run_block(e2, body_[:body_.index(st_)])
+                summed = e2.ev(st_.value.args[0])
+            except Exception:
+                continue
+            ss = [l[:-3] for l in summed.leaves() if l.endswith('#hi') and (l[:-3] + '#lo') in summed.leaves()]
+            for sname in ss:
+                from ..algebra import coeff_of
+                try:
+                    whi, wlo = coeff_of(summed, sname + '#hi'), coeff_of(summed, sname + '#lo')
+                except Exception:
+                    continue
+                if not whi.eq(wlo) or any(l.startswith(sname + '#') for l in whi.leaves()) \
+                        or not (whi * (L(sname + '#hi') + L(sname + '#lo'))).eq(summed):
+                    continue
+                w = whi * C(2)
+                exact = w.eq(L(axis + '#hi') - L(axis + '#lo')) or w.eq(L('%s[1]' % axis) - L('%s[0]' % axis))
+                leaf = 'CUMTRAPZ(%s; x=%s; dx=%s; initial=%s)' % (sname, axis if exact else None, None if exact else w.key()[:60], 0 if init_ else None)
+                body_ = [q for q in body_ if q is not st_ and q not in init_]
+                body_.insert(0, ast.Assign(targets=[ast.Name(id='__cum_' + tname, ctx=ast.Store())], value=ast.Constant(0)))
+                e.env[tname] = L(leaf)
+                e._cum = tname
+                break
+    _pre_env = dict(e.env)
+    run_block(e, [q for q in body_ if not (isinstance(q, ast.Assign) and isinstance(q.targets[0], ast.Name) and q.targets[0].id.startswith('__cum_'))])
     ret = [r for r in ast.walk(fn) if isinstance(r, ast.Return) and r.value is not None]
     got = e.ev(ret[-1].value) if ret else None
     V = L('EvAmuToMS.to(%s)' % energy)
